@@ -160,7 +160,7 @@ for _k, _found in {"C01": {**L0_FIELD_CORE, **L0_SCALAR}, "C02": {**L0_FIELD_COR
 # Field-level programs (go2ir -flevel): the formulas of curve/models.go / edwards.go / montgomery.go and the addition chains of
 # field.go are REGENERATED; these theorems are about the regenerated programs (value: FL.Curve/Models/Field; limb-bound
 # chaining through both backends against the contracts the L0 obligations prove: FL.Bounds).
-_FL_CURVE = reg("Voi.Props.FL.Curve", "Voi.Props.FL.Models")
+_FL_CURVE = reg("Voi.Props.FL.Curve", "Voi.Props.FL.Models", "Voi.Props.FL.Encoding")
 _FL_FIELD = reg("Voi.Props.FL.Field", "Voi.Props.FL.Sqrt")
 _FL_BOUNDS = reg("Voi.Props.FL.Bounds", "Voi.FIR.Sound")
 for _k, _t in {"C03": {**_FL_CURVE, **_FL_BOUNDS}, "C04": {**_FL_FIELD, **_FL_BOUNDS}, "C06": _FL_BOUNDS, "C07": {**_FL_FIELD, **_FL_BOUNDS},
